@@ -225,4 +225,14 @@ Proof.
     destruct v; try discriminate;
       (eapply Step; [exact H|apply G; discriminate|cbn [upd_sym s_sym]; apply set_nth_length|reflexivity|reflexivity]).
 Qed.
+
+Lemma sr_go_shape : forall l st cnt st' c', sr_go names l st cnt = EOk (st', c') ->
+  length (s_sym st') = length (s_sym st) /\ s_instr st' = s_instr st /\ s_data st' = s_data st.
+Proof.
+  induction l as [|n r IH]; intros st cnt st' c' H; [cbn in H; inversion H; subst; auto|].
+  destruct n; cbn [sr_go] in H; try (exact (IH _ _ _ _ H)).
+  destruct (eval code_ops (pvar_simple names st) e []) as [[v c]|]; [|discriminate].
+  destruct v; try discriminate; (destruct (IH _ _ _ _ H) as (G1 & G2 & G3); cbn [upd_sym s_sym s_instr s_data] in *;
+    rewrite set_nth_length in G1; auto).
+Qed.
 End PreGood.
